@@ -1075,7 +1075,9 @@ fn lagrange_cases(b: &LBase, out: &mut Vec<Case>) {
         if let Some(e) = vint(v, 1) { push(format!("lag:gkr=wrong:{}:short-form", n), some(&e)); }
     }
     push("lag:gkr=right:9-byte-form".into(), some(&vint(k, 9).unwrap()));
-    push("lag:gkr=right+trailing".into(), some(&{ let mut e = vint(k, 1).unwrap(); e.extend_from_slice(&[9, 9]); e }));
+    for (n, extra) in [("1z", vec![0u8; 1]), ("2", vec![9u8, 9]), ("17ff", vec![0xffu8; 17])] {
+        push(format!("lag:gkr=right+trailing:{}", n), some(&{ let mut e = vint(k, 1).unwrap(); e.extend_from_slice(&extra); e }));
+    }
     // the Lagrange kernel frame: length byte and element count changed together / alone
     let s = lay.get("ood.lagrange"); let body = &bytes[s.start..s.end];
     let eb = elem_bytes_of(&b.fld) * b.ext;
